@@ -169,3 +169,115 @@ func (v *LocalVec) Cell(i int) *sym.Term {
 	}
 	return nil
 }
+
+// unrollDown handles `for k := hi; k >= lo; k--` (and `k > lo`) with constant bounds by concrete unrolling.
+func (it *Interp) unrollDown(x *ast.ForStmt, obj types.Object, start *sym.Term) bool {
+	inc, ok := x.Post.(*ast.IncDecStmt)
+	if !ok || inc.Tok != token.DEC {
+		return false
+	}
+	if pid, ok := inc.X.(*ast.Ident); !ok || it.info.Uses[pid] != obj {
+		return false
+	}
+	be, ok := x.Cond.(*ast.BinaryExpr)
+	if !ok || (be.Op != token.GEQ && be.Op != token.GTR) {
+		return false
+	}
+	if cid, ok := be.X.(*ast.Ident); !ok || it.info.Uses[cid] != obj {
+		return false
+	}
+	a, okA := constIndex(start)
+	lo, okB := constIndex(it.evalTerm(be.Y))
+	if !okA || !okB {
+		it.undecided(x.Pos(), "downward loop with symbolic bounds")
+	}
+	if be.Op == token.GTR {
+		lo++
+	}
+	if a-lo > 64 {
+		it.undecided(x.Pos(), "downward loop too long")
+	}
+	it.unrolled++
+	defer func() { it.unrolled-- }()
+	for v := a; v >= lo && !it.done; v-- {
+		it.setVar(obj, sym.Int(int64(v)), true)
+		it.block(x.Body.List)
+		if it.ctl == "break" {
+			it.ctl = ""
+			break
+		}
+		it.ctl = ""
+	}
+	return true
+}
+
+// LocalMat is a matrix allocated inside the analysed code or handed in by a check set-up: cells are scalar locations.
+type LocalMat struct {
+	Rows, Cols int
+	Cells      map[string]*Loc
+}
+
+// NewLocalMat builds a rows x cols local matrix with cell (i,j) holding f(i,j).
+func NewLocalMat(rows, cols int, f func(i, j int) *sym.Term) *LocalMat {
+	m := &LocalMat{Rows: rows, Cols: cols, Cells: map[string]*Loc{}}
+	for i := 0; i < rows; i++ {
+		for j := 0; j < cols; j++ {
+			m.Cells[matKey(i, j)] = &Loc{Name: "cell", Val: f(i, j), Consistent: true}
+		}
+	}
+	return m
+}
+
+func matKey(i, j int) string { return sym.Int(int64(i)).String() + "," + sym.Int(int64(j)).String() }
+
+// Cell returns the value of cell (i,j) (nil if out of range).
+func (m *LocalMat) Cell(i, j int) *sym.Term {
+	if l, ok := m.Cells[matKey(i, j)]; ok {
+		return l.Val
+	}
+	return nil
+}
+
+func (it *Interp) localMatMethod(m *LocalMat, name string, call *ast.CallExpr) Value {
+	switch name {
+	case "At", "AT", "ConstAt", "MagicAt":
+		i, ok1 := constIndex(it.evalTerm(call.Args[0]))
+		j, ok2 := constIndex(it.evalTerm(call.Args[1]))
+		if !ok1 || !ok2 {
+			it.undecided(call.Pos(), "local matrix index is not a constant")
+		}
+		if i < 0 || j < 0 || i >= m.Rows || j >= m.Cols {
+			it.path.Panic = true
+			it.path.Events = append(it.path.Events, Event{Kind: "panic", Pos: call.Pos(), Msg: "matrix index out of range"})
+			it.done = true
+			return it.newLoc("oob", sym.Zero())
+		}
+		return m.Cells[matKey(i, j)]
+	case "Dims":
+		return Tuple{sym.Int(int64(m.Rows)), sym.Int(int64(m.Cols))}
+	case "Map":
+		if cl, ok := it.eval(call.Args[0]).(*Closure); ok {
+			for i := 0; i < m.Rows; i++ {
+				for j := 0; j < m.Cols; j++ {
+					it.Apply(cl, []Value{m.Cells[matKey(i, j)]}, call.Pos())
+				}
+			}
+			return NilVal{}
+		}
+	case "ElementType":
+		return &OpaqueVal{"scalartype"}
+	}
+	it.undecided(call.Pos(), "method %s on a local matrix", name)
+	return nil
+}
+
+// NewLocalMatOn allocates a zero matrix whose cells are locations of the current path.
+func NewLocalMatOn(it *Interp, rows, cols int) *LocalMat {
+	m := &LocalMat{Rows: rows, Cols: cols, Cells: map[string]*Loc{}}
+	for i := 0; i < rows; i++ {
+		for j := 0; j < cols; j++ {
+			m.Cells[matKey(i, j)] = it.newLoc("cell", sym.Zero())
+		}
+	}
+	return m
+}
